@@ -22,6 +22,7 @@ namespace {
 
 enum { OP_LOG = 1, OP_SETLEVEL, OP_SLEEP, OP_YIELD, OP_WRITER_FAIL, OP_STREAM_FAIL };
 enum { MODE_EXT_BG = 1, MODE_EXT_FG = 2, MODE_STANDARD = 3, MODE_NOALLOC = 4 };
+// cfg "own_file": modes 3 and 4 let the library open (and later close) the log file itself by name
 static const int CTRL = 5;
 static const size_t NOALLOC_MAX = 8192;
 
@@ -54,6 +55,7 @@ struct Ctx {
     struct aws_log_channel channel;
     struct aws_log_writer writer;
     FILE *stream = nullptr;
+    bool own_file = false;
     std::deque<Call> calls;
     std::map<std::pair<int, int>, Call *> by_id;
     std::map<int, Call *> current; // per sim tid: log call in progress
@@ -286,7 +288,7 @@ void logger_fn(void *arg) {
                 break;
             }
             case OP_STREAM_FAIL:
-                if (c.stream) { simfile::write_stream_fail((int)op.a, (int)op.c, (size_t)op.b); c.stream_failures++; }
+                if (c.stream || c.own_file) { simfile::write_stream_fail((int)op.a, (int)op.c, (size_t)op.b); c.stream_failures++; }
                 break;
         }
     }
@@ -354,23 +356,34 @@ RunInfo run(const sim::Plan &plan) {
                 sim::violation("c14:init", "logger init failed");
         }
     } else {
-        c.stream = simfile::open_write_stream(stream_cb, &c);
+        bool own_file = plan.get("own_file", 0) != 0;
         struct aws_logger_standard_options so;
         AWS_ZERO_STRUCT(so);
         so.level = (enum aws_log_level)c.model_level;
-        so.file = c.stream;
+        if (own_file) {
+            simfile::set_log_path_sink(stream_cb, &c);
+            if (plan.get("fopen_fail", 0)) simfile::set_log_path_fopen_errno((int)plan.get("fopen_fail", 0));
+            so.filename = simfile::kLogPath;
+            c.own_file = true;
+        } else {
+            c.stream = simfile::open_write_stream(stream_cb, &c);
+            so.file = c.stream;
+        }
         int rc;
         if (c.mode == MODE_STANDARD) {
             if (cf) sim::set_create_fail(1, cf);
             rc = aws_logger_init_standard(&c.logger, c.alloc, &so);
         } else rc = aws_logger_init_noalloc(&c.logger, c.alloc, &so);
+        bool fopen_fault = c.own_file && plan.get("fopen_fail", 0) != 0;
         if (rc) {
-            if (!(cf && c.mode == MODE_STANDARD)) sim::violation("c14:init", "logger init failed without an injected fault");
+            if (!(cf && c.mode == MODE_STANDARD) && !fopen_fault) sim::violation("c14:init", "logger init failed without an injected fault");
             init_failed = true;
-        } else if (cf && c.mode == MODE_STANDARD) sim::violation("c14:init", "thread creation failed but logger init reported success");
+        } else if ((cf && c.mode == MODE_STANDARD) || fopen_fault) sim::violation("c14:init", "an injected init fault (thread creation / fopen) was ignored: logger init reported success");
     }
     if (init_failed) {
         if (c.stream) fclose(c.stream);
+        if (c.own_file && simfile::log_path_opens() != simfile::log_path_closes())
+            sim::violation("c14:file-leak", "failed logger init left the log file open (%d opens, %d closes)", simfile::log_path_opens(), simfile::log_path_closes());
         simalloc::expect_balanced("after failed init");
         RunInfo ri;
         ri.st = sim::end();
@@ -410,7 +423,10 @@ RunInfo run(const sim::Plan &plan) {
         if (bg_tid > 0 && !sim::thread_done(bg_tid)) sim::violation("c14:thread-alive", "logger clean-up returned but the background thread has not exited");
         final_checks(c);
         c.cleanup_returned = true;
-        fclose(c.stream);
+        if (c.own_file) {
+            if (simfile::log_path_opens() != 1 || simfile::log_path_closes() != 1)
+                sim::violation("c14:file-leak", "logger that opened its own file: %d opens, %d closes after clean-up", simfile::log_path_opens(), simfile::log_path_closes());
+        } else fclose(c.stream);
     }
     sim::sleep_ns(5000000000ull); // grace period: nothing may be written after clean-up
     if (sim::mutex_held_any()) sim::violation("c14:lock-held", "a mutex is still locked at the end of the run");
@@ -442,6 +458,10 @@ void gen(uint64_t seed, int tier, sim::Plan &p) {
     p.cfg["alloc_yield"] = r.chance(0.4);
     if (r.chance(0.3)) p.cfg["slow_permille"] = r.pick(std::vector<int64_t>{50, 300, 1000});
     if ((mode == 1 || mode == 3) && r.chance(0.04)) p.cfg["create_fail"] = r.pick(std::vector<int64_t>{EAGAIN, ENOMEM, EPERM});
+    if ((mode == 3 || mode == 4) && r.chance(0.4)) {
+        p.cfg["own_file"] = 1;
+        if (r.chance(0.08)) p.cfg["fopen_fail"] = r.pick(std::vector<int64_t>{EACCES, ENOENT, EMFILE});
+    }
     bool faults = p.get("faults") != 0;
     int maxl = tier ? 40 : 14;
     int total = 0;
